@@ -67,7 +67,7 @@ def run(ctx):
     quick = ctx.tier == "quick"
     ctx.rule = ("streams of 0-8 messages (payload lengths boundary-biased up to 4096), each fed to asyncio.StreamReader under several "
                 "chunkings: whole, 1-byte chunks, every single cut, random cuts; all cut PAIRS for streams <= 40 bytes; (thorough) every "
-                "cut SET of a 16/17-byte stream; truncation at every position; one corrupted header field; a case = (stream, chunking), "
+                "cut SET of a 16/17-byte stream; truncation at every position; one corrupted header field; a corrupted header whose payload is cut short; a case = (stream, chunking), "
                 "non-trivial when distinct; each stream result is compared with datagram decoding of the concatenation (the property) and with the model")
     ctx.assumptions = ["asyncio.StreamReader.readexactly is chunking-independent (exercised, not modelled): the model reads from the concatenated stream"]
     loop = asyncio.new_event_loop()
@@ -82,7 +82,16 @@ def run(ctx):
         if data and c < 0.25:
             data = data[: r.randrange(len(data))]
             kind = "truncated"
-        elif data and c < 0.5:
+        elif data and c < 0.65 and any(len(m.payload) > 0 for m in ms):
+            # a rejectable header AND the stream ends inside that message's payload: the reader must reject (ParseError), not wait / report incomplete
+            j = r.choice([i for i, m in enumerate(ms) if len(m.payload) > 0])
+            off = sum(len(m.payload) + 16 for m in ms[:j])
+            d = bytearray(data)
+            which = r.choice([12, 14, 15])
+            d[off + which] = r.choice([0, 7, 0xFF, 0x7F])
+            data = bytes(d[: off + 16 + r.randrange(0, len(ms[j].payload))])
+            kind = "corrupted+truncated"
+        elif data and c < 0.8:
             j = r.randrange(len(ms))
             off = sum(len(m.payload) + 16 for m in ms[:j])
             d = bytearray(data)
